@@ -14,15 +14,23 @@
    guard: the `_refuted` theorems give the witnesses (findings/C03.txt), and the theorems are proved under
    exactly that guard. *)
 From FH Require Import Model.Base Gen.GenC03 Model.HeaderWrite Spec.HeadLines Proof.HeaderWriteProof Model.RespWrite Spec.RespParse Spec.RespSpec
-  Proof.RespParseProof Proof.RespWriteProof Proof.RespWriteMain Proof.RespWriteRefute Proof.RespWriteGuard.
+  Proof.RespParseProof Proof.RespWriteProof Proof.RespWriteMain Proof.RespWriteRefute Proof.RespWriteGuard Proof.RespWriteFields.
 Open Scope N_scope.
 
 (* The bytes written for one request, followed by ANY bytes `tail`, are read by the independent reader as exactly one
    response with the handler's status and body (no body for HEAD / 204 / 304), not delimited by the connection close,
    and the reader stops exactly at `tail`.
-   _partial: header-field fidelity ("those header fields") is not part of the conclusion (p_fields is determined —
-   Proof.RespWriteMain.parse_after_head gives it as the trimmed resp_entries — but it is not compared with the
-   handler's Set/Add calls here; C05/C29 own that), and programs with trailers are excluded by hop_wf. *)
+   _partial: programs with trailers (SetTrailer / AddTrailer / a header named Trailer) and SetProtocol are excluded by
+   hop_wf.  Why trailers are not lifted here: with a non-empty h.trailer (a) AppendBytes drops from the head every h.h
+   entry whose key is listed, so the invariant behind the framing theorems (Proof/RespWriteProof.v: inv, htrailer = [])
+   must be replaced by "no listed name is Transfer-Encoding" — true only through isBadTrailer's 60-case table applied to
+   the key BEFORE normalizeHeaderKeyValidated — and the user-field theorem below by "user fields not announced as
+   trailers"; (b) the chunked body is followed by TrailerHeader(), whose values come from ResponseHeader.peek (nine
+   special names read from their slots, Set-Cookie joined, the rest the first h.h value) and need their own CR/LF-freeness
+   and token-name proofs before Spec/RespParse.parse_fields can be shown to read them back; (c) with a fixed-size body the
+   announced fields are written nowhere.  The model has all of it (RespTrailerHeader, resp_h_keep) and the harness
+   compares trailer programs byte for byte with the real server; only the theorems stop at htrailer = [].
+   Header-field fidelity ("those header fields") is the subject of C03_header_fields_carried below. *)
 Theorem C03_exactly_one_response_partial : forall smsg date, nc smsg -> nc date ->
   forall c q m prog tail wire cl,
   Forall hop_wf prog -> q_head q = is_head m ->
@@ -71,6 +79,52 @@ Print Assumptions C03_bodyless_statuses_from_source.
 Theorem C03_bodyless_statuses_are_rfc : forall r, (100 <= RStatusCode r)%Z -> mustSkipContentLength r = no_body_status (RStatusCode r).
 Proof. exact mustSkip_rfc. Qed.
 Print Assumptions C03_bodyless_statuses_are_rfc.
+
+(* Header-field fidelity, stated on what the INDEPENDENT reader reports (p_fields of Spec/RespParse.resp_parse), not on the
+   writer: for every well-formed handler program, server configuration and request, whenever the reader accepts the
+   written bytes (followed by any bytes):
+     * the user header fields it reports — every field whose name is not one of special_names (Server, Date,
+       Content-Type, Content-Encoding, Content-Length, Transfer-Encoding, Trailer, Set-Cookie, Connection: the names the
+       library adds or keeps in slots of its own) — are exactly the user entries of the handler's final Response
+       (ctx.Response.Header.h after the last call of the program): the same names, the same values up to surrounding
+       blanks (which field-value syntax does not carry), in the same order;
+     * every other reported field bears one of those special names.
+   No guard is needed (the fields do not depend on the body framing).  The link from the handler's Set/Add/Del calls to
+   the final h.h is the header-map semantics of C29 (Spec/HeaderSpec.v); prop_ok judges exactly that composition on the
+   real server's bytes (Spec/RespSpec.fields_ok).
+   _partial in one respect only: as everywhere in this file, programs with trailers / SetProtocol are outside hop_wf. *)
+Theorem C03_header_fields_carried_partial : forall smsg date, nc smsg -> nc date ->
+  forall c q m prog wire res cl tail p,
+  Forall hop_wf prog -> (100 <= w_status (want_of prog) <= 999)%Z ->
+  serve_one smsg date c q prog = (wire, res, cl) ->
+  resp_parse m (wire ++ tail) = Some p ->
+  user_of (p_fields p) = trimmed (user_of (hh (rh (r_hd (hrun (srv_init c) prog))))) /\
+  Forall (fun f => is_user (fst f) = true \/ exists n, In n special_names /\ name_is n (fst f) = true) (p_fields p).
+Proof. exact header_fields_carried. Qed.
+Print Assumptions C03_header_fields_carried_partial.
+
+(* together with C03_exactly_one_response_partial: the one response the reader finds carries status, user fields and body *)
+Theorem C03_one_response_with_fields_partial : forall smsg date, nc smsg -> nc date ->
+  forall c q m prog tail wire cl,
+  Forall hop_wf prog -> q_head q = is_head m ->
+  guard m (finished c q prog) -> stream_small (finished c q prog) ->
+  status_in_scope (w_status (want_of prog)) = true ->
+  serve_one smsg date c q prog = (wire, WrOk, cl) ->
+  exists p, resp_parse m (wire ++ tail) = Some p /\
+    p_status p = w_status (want_of prog) /\
+    user_of (p_fields p) = trimmed (user_of (hh (rh (r_hd (hrun (srv_init c) prog))))) /\
+    p_body p = (if bodyless m (w_status (want_of prog)) then [] else want_data (want_of prog)) /\
+    p_rest p = tail.
+Proof.
+  intros smsg date Hs Hd c q m prog tail wire cl Hw Hq Hg Hsm Hsc E.
+  destruct (exactly_one_response smsg date Hs Hd c q m prog tail wire cl Hw Hq Hg Hsm Hsc E) as (p & Ep & A1 & A2 & _ & A4 & _).
+  assert (Hst : (100 <= w_status (want_of prog) <= 999)%Z).
+  { unfold status_in_scope in Hsc. apply andb_true_iff in Hsc as [H1 H2]. apply Z.leb_le in H1. apply Z.leb_le in H2. split; [|exact H2].
+    apply Z.le_trans with 200%Z; [discriminate|exact H1]. }
+  destruct (header_fields_carried smsg date Hs Hd c q m prog wire WrOk cl tail p Hw Hst E Ep) as [F _].
+  exists p. repeat split; assumption.
+Qed.
+Print Assumptions C03_one_response_with_fields_partial.
 
 (* the same at the level of Response.Write, for every consistent Response state (not only reachable ones) *)
 Theorem C03_write_parses : forall smsg date, nc smsg -> nc date ->
@@ -194,3 +248,12 @@ Example C03_ex_data_with_eof :
   option_map (fun p => (p_body p, p_rest p)) (resp_parse MGet (fst (fst (serve_one ok d0 cfg0 q_get ex_data_eof)) ++ s2b "NEXT"))
     = Some (s2b "abcdefg", s2b "NEXT").
 Proof. vm_compute. reflexivity. Qed.
+
+(* the header-field oracle of prop_ok is not vacuous: a dropped, altered or reordered user field is rejected *)
+Example C03_ex_fields_oracle :
+  let prog := [HHdr (ROSet (s2b "x-foo") (s2b " bar")); HHdr (ROAdd (s2b "X-Foo") (s2b "baz")); HHdr (ROSet (s2b "ETag") (s2b "1")); HDel (s2b "etag")] in
+  fields_ok false prog [(s2b "Server", s2b "s"); (s2b "X-Foo", s2b "bar"); (s2b "X-Foo", s2b "baz")] = true /\
+  fields_ok false prog [(s2b "X-Foo", s2b "baz"); (s2b "X-Foo", s2b "bar")] = false /\
+  fields_ok false prog [(s2b "X-Foo", s2b "bar")] = false /\
+  fields_ok false prog [(s2b "X-Foo", s2b "bar"); (s2b "X-Foo", s2b "baz"); (s2b "Etag", s2b "1")] = false.
+Proof. vm_compute. repeat split; reflexivity. Qed.
